@@ -2,6 +2,7 @@ package props
 
 import (
 	"go/token"
+	"go/types"
 	"strings"
 
 	"golang.org/x/tools/go/ssa"
@@ -401,5 +402,36 @@ func ruleRunnerRegisteredBeforeItCanClose(c *an.Ctx, o *an.O) {
 	}
 	if !ls.SameSection(news[0], ins[0], mu) {
 		o.FailAt(ins[0], "the rerunner is started in one critical section of %s and stored in c.subscriptions in another: a first computation that fails in between closes nothing, and the dead subscription stays registered", mu)
+	}
+}
+
+// ruleSingleRunnerRegistry (C17): subscriptions and in-flight mutations are
+// registered under client-chosen ids in one map; closeSubscription(id) is the
+// single way either ends. A second registry of rerunners splits the id space:
+// the duplicate-id test of one message kind no longer sees the other kind, and
+// the shared close path ends whatever carries that id in both.
+func ruleSingleRunnerRegistry(c *an.Ctx, o *an.O) {
+	fn := c.NeedFunc(gq, "(*conn).closeSubscription")
+	recv := fn.Params[0].Type()
+	n := an.NamedOf(recv)
+	if n == nil {
+		o.Undecided("closeSubscription has no named receiver")
+		return
+	}
+	st, ok := n.Underlying().(*types.Struct)
+	if !ok {
+		o.Undecided("conn is not a struct")
+		return
+	}
+	var regs []string
+	for k := 0; k < st.NumFields(); k++ {
+		f := st.Field(k)
+		if strings.Contains(f.Type().String(), "reactive.Rerunner") {
+			regs = append(regs, f.Name())
+		}
+	}
+	o.SitePos(c.P.Pos(n.Obj().Pos()))
+	if len(regs) != 1 {
+		o.Fail(c.P.Pos(n.Obj().Pos()), "conn keeps rerunners in %d fields (%s): ids of subscriptions and mutations no longer share one registry, so a message reusing a live id is not rejected as duplicate and the shared close path ends a request the client did not end", len(regs), strings.Join(regs, ", "))
 	}
 }
